@@ -232,6 +232,10 @@ func syntheticSubjects() []subject {
 	add("uint32[0,4294967295]step1000000000", withStep(synthInt("uint32", 0, 4294967295, 0), 1000000000))
 	add("float[0,1]step0.3", withStep(synthFloat(0.0, 1.0, 0.0), 0.3))
 	add("float[-10,10]step3", withStep(synthFloat(-10.0, 10.0, 0.0), 3.0))
+	// bounds beyond 2^53, where an int no longer survives a detour through float64
+	add("uint64[1,9007199254740992]", synthInt("uint64", 1, 1<<53, 7))
+	add("uint64[18014398509481988,)", synthInt("uint64", 1<<54+4, nil, 1<<54+9))
+	add("uint64(,4611686018427387905]", synthInt("uint64", nil, 1<<62+1, 7))
 	add("int32[-50,50]", synthInt("int32", -50, 50, 1))
 	add("uint16[0,65535]", synthInt("uint16", 0, 65535, 1))
 	add("uint32[0,4294967295]", synthInt("uint32", 0, 4294967295, 1))
